@@ -106,12 +106,47 @@ def check_bip32_classes():
                 fail(f"{f}: {cls}.{meth} returns {got}, the derivation model assumes {want}")
 
 
+EV1 = "bip_utils/electrum/electrum_v1.py"
+
+
+def electrum_v1_lines():
+    """ElectrumV1.__GetSequence: DoubleSha256(Encode(f"{addr_idx}:{change_idx}:") + RawUncompressed()[1:]).
+    The two separators and the order of the two indexes are read from the f-string in the source."""
+    fn = find_func(EV1, "ElectrumV1", "__GetSequence")
+    js = [n for n in ast.walk(fn) if isinstance(n, ast.JoinedStr)]
+    if len(js) != 1:
+        fail(f"{EV1}: __GetSequence: expected exactly one f-string")
+    vals = js[0].values
+    shape = [type(v).__name__ for v in vals]
+    if shape != ["FormattedValue", "Constant", "FormattedValue", "Constant"]:
+        fail(f"{EV1}: __GetSequence: unexpected f-string shape {shape}")
+    names = [_attr_name(vals[0].value, EV1), _attr_name(vals[2].value, EV1)]
+    if names != ["addr_idx", "change_idx"]:
+        fail(f"{EV1}: __GetSequence: index order {names}, the model assumes address index first")
+    for v in (vals[0], vals[2]):
+        if v.conversion != -1 or v.format_spec is not None:
+            fail(f"{EV1}: __GetSequence: formatted value with conversion/format spec")
+    # the slice [1:] dropping the uncompressed-key prefix
+    subs = [n for n in ast.walk(fn) if isinstance(n, ast.Subscript) and isinstance(n.slice, ast.Slice)]
+    if len(subs) != 1 or subs[0].slice.upper is not None or subs[0].slice.step is not None \
+            or not isinstance(subs[0].slice.lower, ast.Constant):
+        fail(f"{EV1}: __GetSequence: expected one slice [k:]")
+    out = []
+    for nm, v in (("electrum_v1_sep1", vals[1].value), ("electrum_v1_sep2", vals[3].value)):
+        ty, txt = emit("str", v)
+        out.append(f"Definition {nm} : {ty} := {txt}.")
+    ty, txt = emit("nat", subs[0].slice.lower.value)
+    out.append(f"Definition electrum_v1_pub_skip : {ty} := {txt}.")
+    return out
+
+
 def generate():
     out = []
     for name, f, cls, attr, kind in TABLE:
         ty, txt = emit(kind, reflect(f, cls, attr))
         out.append(f"Definition {name} : {ty} := {txt}.")
     out.extend(mst_key_lines())
+    out.extend(electrum_v1_lines())
     check_bip32_classes()
     # HmacSha512.DigestSize() // 2 as used by QuickDigestHalves / GenerateFromSeed
     find_func("bip_utils/utils/crypto/hmac.py", "HmacSha512", "DigestSize")
